@@ -74,6 +74,8 @@ def configs(tier, seed):
             lab = [i % k for i in range(len(sup))]
             rng.shuffle(lab)
             out[-1]['segments'] = lab
+        if out[-1]['dir'] == 'pupil' and rng.random() < 0.2:
+            out[-1]['tilt'] = True          # a Tilt plane after the pupil (sub-sample angles): the same field as the same ramp in the OPD
     # fixed regression set: every window option on one non-square geometry, default shape / prop_shape arguments
     fixed = [
         {'n': [3, 2], 'support': [[0, 0], [1, 1], [2, 0]], 'shape': [2, 3], 'prop': [2, 3], 'os': 2, 'mask': None, 'scales': 'axis', 'dir': 'pupil', 'defaults': True},
@@ -85,6 +87,7 @@ def configs(tier, seed):
         {'n': [2, 2], 'support': [[0, 0], [0, 1], [1, 0], [1, 1]], 'shape': [3, 2], 'prop': [3, 2], 'os': 2,
          'mask': [[0, 0, 0, 0], [0, 1, 0, 0], [0, 0, 0, 1], [0, 0, 0, 0], [0, 0, 0, 0], [0, 0, 0, 0]], 'scales': 'axis', 'dir': 'pupil', 'defaults': False},
     ]
+    fixed += [dict(fixed[1], tilt=True), dict(fixed[3], tilt=True), dict(fixed[0], tilt=True)]
     out = fixed + out
     return out, total + len(fixed), False
 
@@ -156,6 +159,19 @@ def run(W, cfg):
                                   lambda i, j: wr[0] <= i <= wr[1] and wc[0] <= j <= wc[1] and bb2[0] <= i <= bb2[1] and bb2[2] <= j <= bb2[3])
         third = lt.propagate_dft(w, pixelscale=du_arg, oversample=os, mask=omask, **kw)
         W.ob('field, the mask array refilled in place with another window', third.field, W.array(want2))
+    if cfg.get('tilt') and cfg['dir'] == 'pupil':
+        from fractions import Fraction as _Ft
+        # a third of a sample along the rows, two fifths against the columns: below half a sample at every oversampling, so every
+        # field keeps the undisplaced window; per-axis sampling makes the row and column pitches different numbers
+        angs = (W.const(_Ft(1, 3)) * du[0] / (f * os), -(W.const(_Ft(-2, 5)) * du[1]) / (f * os))
+        ramp = W.zeros((nr, nc))
+        for r in range(nr):
+            for c in range(nc):
+                ramp[r, c] = angs[0] * ((r - nr // 2) * dx[0]) - angs[1] * ((c - nc // 2) * dx[1])
+        ramped = lt.Pupil(amplitude=amp, opd=opd + ramp, mask=pmask.copy(), pixelscale=dx_arg, focal_length=f)
+        out_r = lt.propagate_dft(lt.Wavefront(lam) * ramped, pixelscale=du_arg, oversample=os, mask=(None if cfg['mask'] is None else rnp.array(cfg['mask'])), **kw)
+        out_t = lt.propagate_dft(w * lt.Tilt(x=angs[0], y=angs[1]), pixelscale=du_arg, oversample=os, mask=(None if cfg['mask'] is None else rnp.array(cfg['mask'])), **kw)
+        W.ob('a Tilt plane after the pupil = the same ramp in the OPD', out_t.field, out_r.field)
     # the array handed out by .field is the caller's to edit: a later read of the wavefront is unaffected
     mine = out.field
     first_read = mine.copy()
